@@ -225,7 +225,7 @@ func (s *JavaIdentifierListener) EnterExpression(ctx *parser.ExpressionContext) 
 		statementCtx := ctx.GetParent().(*parser.StatementContext)
 		firstChild := statementCtx.GetChild(0).(antlr.ParseTree).GetText()
 		if strings.ToLower(firstChild) == "return" {
-			currentMethod.IsReturnNull = strings.Contains(ctx.GetText(), "null")
+			currentMethod.IsReturnNull = currentMethod.IsReturnNull || strings.Contains(ctx.GetText(), "null")
 		}
 	}
 }
